@@ -123,6 +123,7 @@ func init() {
 	Properties["C03"] = &PropertySpec{
 		Modules: bt,
 		Rules: []Rule{
+			R71(),
 			R64(),
 			Only(R59(), `^a/|^d/`, `^f/`),
 			Only(R54(), `^\(\*server\)\.ReadRows`, `^mergeRowRanges`, `^mergeSimpleRanges`, `^no-carried`),
@@ -386,6 +387,7 @@ func init() {
 	Properties["C18"] = &PropertySpec{
 		Modules: bt,
 		Rules: []Rule{
+			R71(),
 			Only(R59(), `^a/`, `^f/`),
 			R06(),
 			Only(R02R03(), fns("(*table).gc")),
